@@ -2,7 +2,7 @@ from __future__ import annotations
 
 from abc import ABC
 from dataclasses import dataclass, field
-from functools import lru_cache
+from functools import cached_property
 
 from typing_extensions import Any, Optional, List, Dict, Iterable
 
@@ -46,8 +46,7 @@ class Conclusion(SymbolicExpression[T], ABC):
         self._node_.parent = current_parent._node_
         self._parent_._add_conclusion_(self)
 
-    @property
-    @lru_cache(maxsize=None)
+    @cached_property
     def _all_variable_instances_(self) -> List[Variable]:
         return self.var._all_variable_instances_ + self.value._all_variable_instances_
 
